@@ -12,6 +12,7 @@ import AriVerif.Framing
 import AriVerif.Sender
 import AriVerif.Dispatch
 import AriVerif.Conc.MetaSrv
+import AriVerif.Conc.AppClose
 /-!
 Line-protocol driver: one operation per input line, one answer line per operation.
 Every string travels as lower-case hex of its UTF-8 bytes (`-` = empty).
@@ -216,6 +217,33 @@ def stepLine (line : String) : String :=
         let (ls, b) := feedAllL [] (cs.map String.toList)
         "ok " ++ " ".intercalate (ls.map fun l => Hex.ofStr (String.ofList l)) ++ " ; " ++ Hex.ofStr (String.ofList b)
       | none => "bad-op"
+  | ["appclose", hnd, fail, closes, pf, inb, acts] =>
+      -- trace acceptance for Conc/AppClose: `hnd` a|y|n, `fail` k|-, `closes`, `pf` 0|1, `inb` chunks `it,t,-` (i init, t task, - empty
+      -- chunk; `.` = no chunk at all), `acts` one letter per action (a app, r rd, f rfal, w wr, e tenq, d tfin)
+      let h? : Option AppClose.Hnd := match hnd with | "a" => some .absent | "y" => some .yes | "n" => some .no | _ => none
+      let f? : Option (Option Nat) := if fail = "-" then some none else fail.toNat?.map some
+      let chunk? (c : String) : Option (List AppClose.Req) :=
+        if c = "-" then some [] else c.toList.mapM fun ch => match ch with | 'i' => some AppClose.Req.init | 't' => some .task | _ => none
+      let inb? : Option (List (List AppClose.Req)) := if inb = "." then some [] else (inb.splitOn ",").mapM chunk?
+      let acts? : Option (List AppClose.Act) := acts.toList.mapM fun ch => match ch with
+        | 'a' => some AppClose.Act.app | 'r' => some .rd | 'f' => some .rfal | 'w' => some .wr | 'e' => some .tenq | 'd' => some .tfin
+        | _ => none
+      let showR : AppClose.RPc → String | .test => "test" | .recv => "recv" | .proc _ => "proc" | .exc => "exc" | .done => "done"
+      let showW : AppClose.WPc → String | .get => "get" | .send _ => "send" | .done => "done"
+      let obs (s : AppClose.St) : String :=
+        " ".intercalate [toString s.app, showR s.r, showW s.w, toString s.stop, toString s.poolShut, toString s.sockClosed,
+          toString s.tasks, toString s.fin, toString s.acc, toString s.q.length, toString s.excRep, toString s.exited,
+          "rep=" ++ String.join (s.ioRep.map fun r => match r.who with | .reader => "R" | .writer => "W"),
+          "wrote=" ++ ",".intercalate (s.wrote.map toString), "next=" ++ toString s.next]
+      match h?, f?, closes.toNat?, (if pf = "0" then some false else if pf = "1" then some true else none), inb?, acts? with
+      | some h, some f, some c, some p, some ib, some as =>
+        let rec go (s : AppClose.St) (i : Nat) : List AppClose.Act → String
+          | [] => "ok " ++ obs s
+          | a :: rest => match AppClose.step s a with
+            | some s' => go s' (i + 1) rest
+            | none => "rejected " ++ toString i ++ " " ++ obs s
+        go (AppClose.init h f c ib p) 0 as
+      | _, _, _, _, _, _ => "bad-op"
   | ["pool", sz, cpu] =>
       match parseOptInt? sz, parseOptInt? cpu with
       | some s, some c => "ok " ++ toString (Gen.poolSize s c)
